@@ -48,6 +48,28 @@ example : ∃ res, checkProof (Toy.rules []) ⟨true, false, 0⟩ 5 exPrf = .ok 
     res.th = some ⟨[1, 3, 4], 2⟩ ∧ res.trace.length = 2 := by
   refine ⟨_, rfl, ?_, ?_⟩ <;> rfl
 
+/-- The trace covers the proof object: every item reached through `subproof` blocks from a
+top-level item (empty lines excepted) has an event at its position with its rule and, if it states
+a sequent, that sequent.  With `accepted_justified`: every stated sequent of such an item is no
+stronger than a justified one. -/
+theorem trace_covers (R : Rules) (cfg : Cfg) (fuel : Nat) (prf : List Item) (res : Res)
+    (hco : cfg.computeOnly = false) (h : checkProof R cfg fuel prf = .ok res)
+    (k : Nat) (top it : Item) (q : List Nat) (hk : prf[k]? = some top) (hr : ReachFrom top q it)
+    (hne : it.rule ≠ "") :
+    (∃ e ∈ res.trace, e.pos = k :: q ∧ e.rule = it.rule ∧ ∀ t, it.th = some t → e.th = t) ∧
+    (∀ t, it.th = some t → ∃ r, Justified R (fun g => g ∈ res.gaps) r ∧ canProve r t = true) := by
+  have hc := checkProof_covers hco h hk hr hne
+  refine ⟨hc, ?_⟩
+  intro t ht
+  obtain ⟨e, he, _, _, h3⟩ := hc
+  have := (checkProof_post hco h).1 e he
+  rw [h3 t ht] at this
+  exact this
+
+/- the second item of `exPrf` is reached (as a top-level item) and states `1,3,4 ⊢ 2` -/
+example : ReachFrom (exPrf[1]) [] (exPrf[1]) ∧ (exPrf[1]).rule ≠ "" ∧ (exPrf[1]).th = some ⟨[1, 3, 4], 2⟩ :=
+  ⟨.here _, by decide, rfl⟩
+
 /-- With `no_gaps` an accepted proof met no placeholder at any depth (the trace also covers the
 items of every expansion produced while checking), and no gap is reported. -/
 theorem no_gaps_exact (R : Rules) (cfg : Cfg) (fuel : Nat) (prf : List Item) (res : Res)
